@@ -69,6 +69,10 @@ C13_InvalidRefused == bad # "invalid request not refused"
 \* ... and leave no trace
 C13_RefusedLeavesNoTrace == bad # "a refused request left a trace"
 
+\* C04: only the server clock times a promise out: a completion that names a state a client may not set
+\* (pending, timed out, unknown) is refused by the front end and leaves no trace
+C04_ClientCannotTimeOut == bad \notin {"invalid request not refused", "a refused request left a trace", "server error for a client input"}
+
 TraceAccepted ==
   LET d == TLCGet("stats").diameter IN
   IF d - 1 = Len(TraceLog) THEN PrintT(<<"KNOWN-FINDINGS-SEEN", TLCGet(42)>>)
